@@ -1,5 +1,6 @@
 (* Proofs about Model/Inhibit.v (C03): the per-rule invariant tying cache and index to the history, and from it
    "Mutes <-> documented existential rule" for every rule set and every history of updates / GC / time. *)
+From stdpp Require Import mapset.
 From AM Require Import Base.Prelude Model.Matchers Model.Inhibit.
 
 (* ---------- time ---------- *)
@@ -18,33 +19,47 @@ Lemma last_time_snoc h : forall t0 t o, last_time t0 (h ++ [(t, o)]) = t.
 Proof. induction h as [|[t1 o1] h IH]; intros t0 t o; simpl; [reflexivity|apply IH]. Qed.
 
 (* ---------- the index ---------- *)
+Lemma elem_set_ins (f v : list (string * string)) (s : gset (list (string * string))) :
+  f ∈ set_ins v s <-> f = v \/ f ∈ s.
+Proof.
+  destruct s as [m]. unfold set_ins, elem_of, gset_elem_of, mapset_elem_of. simpl. rewrite lookup_insert_Some. split.
+  - intros [[-> _]|[_ H]]; auto.
+  - intros [->|H]; [left; auto|]. destruct (decide (v = f)) as [->|Hne]; [left; auto|right; auto].
+Qed.
+
+Lemma elem_set_del (f v : list (string * string)) (s : gset (list (string * string))) :
+  f ∈ set_del v s <-> f ∈ s /\ f <> v.
+Proof.
+  destruct s as [m]. unfold set_del, elem_of, gset_elem_of, mapset_elem_of. simpl. rewrite lookup_delete_Some. split.
+  - intros [Hne H]. split; [exact H|]. intros ->. apply Hne. reflexivity.
+  - intros [H Hne]. split; [|exact H]. intros ->. apply Hne. reflexivity.
+Qed.
+
 Lemma elem_ix_add (f : list (string * string)) (k' k : list string) (v : list (string * string))
-    (ix : gmap (list string) (list (list (string * string)))) :
+    (ix : gmap (list string) (gset (list (string * string)))) :
   f ∈ ix_get (ix_add k v ix) k' <-> f ∈ ix_get ix k' \/ (k' = k /\ f = v).
 Proof.
-  unfold ix_add. case_bool_decide as Hin.
-  - split; [auto|]. intros [H|[-> ->]]; auto.
-  - unfold ix_get at 1. destruct (decide (k' = k)) as [->|Hne].
-    + rewrite lookup_insert. simpl. rewrite elem_of_cons. split.
-      * intros [->|H]; auto.
-      * intros [H|[_ ->]]; auto.
-    + rewrite lookup_insert_ne by auto. fold (ix_get ix k'). split; [auto|].
-      intros [H|[H _]]; [auto|contradiction].
+  unfold ix_add. unfold ix_get at 1. destruct (decide (k' = k)) as [->|Hne].
+  - rewrite lookup_insert. simpl. rewrite elem_set_ins. split.
+    + intros [->|H]; auto.
+    + intros [H|[_ ->]]; auto.
+  - rewrite lookup_insert_ne by auto. fold (ix_get ix k'). split; [auto|].
+    intros [H|[H _]]; [auto|contradiction].
 Qed.
 
 Lemma elem_ix_del (f : list (string * string)) (k' k : list string) (v : list (string * string))
-    (ix : gmap (list string) (list (list (string * string)))) :
+    (ix : gmap (list string) (gset (list (string * string)))) :
   f ∈ ix_get (ix_del k v ix) k' <-> f ∈ ix_get ix k' /\ ~ (k' = k /\ f = v).
 Proof.
   unfold ix_del. destruct (ix !! k) as [l|] eqn:Hk.
-  - assert (Hflt : forall x, x ∈ filter (fun x => x <> v) l <-> x ∈ l /\ x <> v).
-    { intros x. rewrite elem_of_list_filter. tauto. }
-    destruct (filter (fun x => x <> v) l) as [|y l'] eqn:Hf.
+  - assert (Hflt : forall x, x ∈ set_del v l <-> x ∈ l /\ x <> v).
+    { intros x. apply elem_set_del. }
+    destruct (decide (set_del v l = ∅)) as [Hf|Hf].
     + unfold ix_get. destruct (decide (k' = k)) as [->|Hne].
       * rewrite lookup_delete, Hk. simpl. split.
-        { intros H. inversion H. }
-        intros [Hin Hn]. exfalso. apply (not_elem_of_nil f). apply Hflt. split; [exact Hin|].
-        intros ->. apply Hn. auto.
+        { intros H. exfalso. exact (not_elem_of_empty f H). }
+        intros [Hin Hn]. exfalso. apply (not_elem_of_empty (C:=gset (list (string * string))) f). rewrite <- Hf. apply Hflt.
+        split; [exact Hin|]. intros ->. apply Hn. auto.
       * rewrite lookup_delete_ne by auto. split; [|tauto]. intros H. split; [exact H|]. intros [? _]. contradiction.
     + unfold ix_get. destruct (decide (k' = k)) as [->|Hne].
       * rewrite lookup_insert, Hk. simpl. rewrite Hflt. split.
@@ -52,11 +67,11 @@ Proof.
         intros [Hin Hn]. split; [exact Hin|]. intros ->. apply Hn. auto.
       * rewrite lookup_insert_ne by auto. split; [|tauto]. intros H. split; [exact H|]. intros [? _]. contradiction.
   - split; [|tauto]. intros H. split; [exact H|]. intros [-> ->]. unfold ix_get in H. rewrite Hk in H.
-    simpl in H. inversion H.
+    simpl in H. exact (not_elem_of_empty _ H).
 Qed.
 
 (* the GC callback: whatever the deletion order, exactly the dead alerts' own entries disappear *)
-Lemma gc_ix_elem (c : rule) (dead : list alert) (ix : gmap (list string) (list (list (string * string))))
+Lemma gc_ix_elem (c : rule) (dead : list alert) (ix : gmap (list string) (gset (list (string * string))))
     (f : list (string * string)) (k : list string) :
   f ∈ ix_get (foldr (fun a ix => ix_del (eqkey c (a_lbls a)) (a_lbls a) ix) ix dead) k <->
   f ∈ ix_get ix k /\ ~ (exists a, a ∈ dead /\ eqkey c (a_lbls a) = k /\ a_lbls a = f).
@@ -424,7 +439,7 @@ Section Proofs.
   Proof.
     intros [Hcfg Hsc Hlat Hix] H. unfold candidates in H. apply elem_of_list_filter in H as [Hu Hin].
     unfold usable in Hu. rewrite Hcfg in *. destruct (ir_sc r !! f) as [a|] eqn:Hf; [|discriminate].
-    destruct (Hsc f a Hf) as (H1 & H2 & H3 & H4). apply Hix in Hin.
+    destruct (Hsc f a Hf) as (H1 & H2 & H3 & H4). apply elem_of_elements in Hin. apply Hix in Hin.
     apply andb_true_iff in Hu as [Hu1 Hu2]. apply negb_true_iff in Hu1, Hu2.
     exists a. split; [|split; [exact H1|]].
     - split; [rewrite H1; exact H2|exact Hu1].
@@ -445,7 +460,7 @@ Section Proofs.
     - unfold usable. rewrite Hc, Hr, Hcfg. simpl.
       destruct (ms_matches re (r_src c) lset) eqn:Ha; [|reflexivity].
       destruct (ms_matches re (r_tgt c) (a_lbls s)) eqn:Hb; [|reflexivity]. exfalso. apply Hn. auto.
-    - apply eqkey_eq_on in He. rewrite <- He. exact H4.
+    - apply elem_of_elements. apply eqkey_eq_on in He. rewrite <- He. exact H4.
   Qed.
 
   (* ---------- the rule list ---------- *)
